@@ -5,7 +5,7 @@
    `max utility = brute-force optimum, with or without the pruning passes` is NOT proved. *)
 From Coq Require Import ZArith Bool List.
 Import ListNotations.
-From Verif Require Import Model.Val Model.Strl Proofs.StrlP Proofs.StrlP2 Proofs.StrlP3 Proofs.StrlP4 Proofs.StrlP5.
+From Verif Require Import Model.Val Model.Strl Proofs.StrlP Proofs.StrlP2 Proofs.StrlP3 Proofs.StrlP4 Proofs.StrlP5 Proofs.StrlP6.
 Open Scope Z_scope.
 
 (* capacity: for every tree whose leaf start times are congruent modulo the granularity, every
@@ -86,6 +86,15 @@ Theorem C20_lessthan_partial : forall pt now g e cs a n x y,
     s1 + d1 <= s2.
 Proof. exact lessthan_simple. Qed.
 Print Assumptions C20_lessthan_partial.
+
+(* the same at the level of the read-back: for every LessThan whose children are a Choose or a Max, every
+   placement named after a Choose of the first child ends before every placement named after a Choose
+   of the second child starts (a placement reaches the root only through ancestors lowered with utility) *)
+Theorem C20_lessthan_placements_partial : forall pt now g e cs a,
+  compile pt now g e = Ok cs -> sat cs a = true -> unique_ids e -> wf_times e ->
+  lt_ok_simple e (populate pt now a e).
+Proof. exact lessthan_simple_placements. Qed.
+Print Assumptions C20_lessthan_placements_partial.
 
 (* finding F14: the LessThan ordering of the read-back placements is NOT guaranteed in general *)
 Theorem C20_lessthan_refuted :
